@@ -90,10 +90,21 @@ package redis
 //@ pred isPlain(reply): !hastype(reply, "common.RedisError") || common.SpecRedirectClass(string(astype(reply, "common.RedisError"))) == common.KrespError
 
 // (errors.Join: library contract declared in config)
+// SpecCarriesRedisError: errors.As(err, *common.RedisError) would succeed - err is a RedisError
+// or wraps one. SpecHasVerbW: the format string contains the wrapping verb %w.
+func SpecCarriesRedisError(err error) bool { panic("abstract spec function") }
+func SpecHasVerbW(format string) bool      { panic("abstract spec function") }
+
+//@ spec SpecCarriesRedisError abstract
+//@ spec SpecHasVerbW abstract
+// ground fact about one format literal of this package (no %w in it: the cause is flattened to text)
+//@ axiom downgrade_format_does_not_wrap: !SpecHasVerbW("node pipeline connection dropped after an earlier request was redirected: %s")
+
 //@ func fmt.Errorf(format, a) (err)
-//@   trusted library contract: a fresh error value of fmt's own type
+//@   trusted library contract: a fresh error value of fmt's own type; it wraps an argument only through the verb %w
 //@   ensures nonnil: err != nil
 //@   ensures own_error_type: !hastype(err, "common.RedisError")
+//@   ensures wraps_only_through_w: !SpecHasVerbW(format) ==> !SpecCarriesRedisError(err)
 //@ func strings.Split(s, sep) (r)
 //@   trusted library contract
 //@   modifies nothing
@@ -270,7 +281,7 @@ func SpecUpper(s string) string { return s }
 //@   ghost var failingOthers mathint = 0
 //@   set failingOthers = 1 at call failPending
 //@   set failingOthers = 0 after call failPending
-//@   assert at call complete: a_redirect_answers_only_the_request_that_received_it: failingOthers == 1 ==> !hastype(err, "common.RedisError")
+//@   assert at call complete: a_redirect_answers_only_the_request_that_received_it: failingOthers == 1 ==> !hastype(err, "common.RedisError") && !SpecCarriesRedisError(err)
 //@   set connDropped = 1 at call shutdown
 //@   set connDropped = 0 after call getConn
 //@   assert at call getConn: a_dropped_connection_leaves_no_outstanding_reply: connDropped == 1 ==> len(pending) == 0
@@ -278,5 +289,6 @@ func SpecUpper(s string) string { return s }
 //@     invariant dropped_connection_has_no_outstanding_reply: failingOthers == 0 && (connDropped == 1 ==> conn == nil && len(pending) == 0)
 
 //@ func errors.As(err, target) (r)
-//@   trusted library contract: in this repository errors.As is only used with *common.RedisError targets; false means err is not one
+//@   trusted library contract: in this repository errors.As is only used with *common.RedisError targets; false means err neither is one nor wraps one
 //@   ensures not_that_type: !r ==> !hastype(err, "common.RedisError")
+//@   ensures sees_through_wrapping: r <==> SpecCarriesRedisError(err)
